@@ -274,6 +274,32 @@ pub fn cases(thorough: bool) -> Vec<Case> {
             out.push(build_spread(&slots, off));
         }
     }
+    // @group/@binding on a variable of another address space (the front end accepts it, only the validator objects): with
+    // validation off such a variable occupies its slot like any other declared binding
+    for d in 1..=3usize {
+        for seq in wgslgen::sequences(grid.len(), d) {
+            let slots: Vec<(u64, u64)> = seq.iter().map(|i| grid[*i]).collect();
+            for odd in 0..d {
+                for space in ["private", "workgroup"] {
+                    if !thorough && (seq.iter().sum::<usize>() + odd) % 3 != 0 {
+                        continue;
+                    }
+                    let mut src = String::new();
+                    for (i, (g, b)) in slots.iter().enumerate() {
+                        let name = var_name(i);
+                        if i == odd {
+                            src.push_str(&format!("@group({g}) @binding({b}) var<{space}> {name}: vec4<f32>;\n"));
+                        } else {
+                            src.push_str(&decl(["uniform", "texture"][i % 2], &name, *g, *b));
+                        }
+                    }
+                    src.push_str("@compute @workgroup_size(1) fn main() {\n}\n");
+                    let key = format!("slots={}|used=0|odd-space={space}@{odd}", slots.iter().map(|(g, b)| format!("{g}.{b}")).collect::<Vec<_>>().join(","));
+                    out.push(Case { key, slots: slots.clone(), used: false, src });
+                }
+            }
+        }
+    }
     // wide: 65 / 70 / 130 bindings in one group (ascending, descending), 65 / 70 groups of one binding, and a duplicate at
     // the far end of a long sequence
     for n in [65u64, 70, 130] {
